@@ -288,6 +288,24 @@ def run(ctx):
     r5.check(ok, f"{sm.rel}:Scheduler._evaluate_apply:defaults-merge", "evaluated arguments are not {**default_kwargs, **kwargs} (explicit keywords must win, defaults must be present)", sm.rel, ea.lineno)
     used = any(call_name(c) == "get_arg_defaults" for c in calls_in(ea))
     r5.check(used, f"{sm.rel}:Scheduler._evaluate_apply:get_arg_defaults", "defaults are no longer computed with get_arg_defaults", sm.rel, ea.lineno)
+    # defaults are injected as *keyword* arguments, which a positional-only parameter does not accept
+    from ..cfg import CFG as _CFG, facts_at as _facts_at
+
+    gcfg = _CFG(gad)
+    stores = [n for n in gcfg.nodes if n.kind == "stmt" and isinstance(n.ast, ast.Assign) and isinstance(n.ast.targets[0], ast.Subscript) and ".name" in src(n.ast.targets[0].slice)]
+    if not stores:
+        raise AnalysisError("get_arg_defaults: `defaults[param.name] = ...` not found", "get_arg_defaults")
+    for st_ in stores:
+        fs = _facts_at(gcfg, st_)
+        excluded = any(("POSITIONAL_ONLY" in f and ".kind" in f and "==" in f and not t) for f, t in fs) or any(("POSITIONAL_ONLY" not in f and ".kind in" in f and t) for f, t in fs)
+        r5.check(
+            excluded,
+            f"{sm.rel}:get_arg_defaults:positional-only",
+            f"`{src(st_.ast)}` can run for a positional-only parameter: its default is then passed by keyword and the call fails with "
+            "`got some positional-only arguments passed as keyword arguments` (def p(a, b=2, /): p(1) cannot be evaluated)",
+            sm.rel,
+            st_.lineno,
+        )
 
 
 def _defines(repo, cname: str, attr: str) -> bool:
